@@ -128,7 +128,7 @@ theorem translate_dims (dims : List (Dim ℚ)) (hex : ∀ D ∈ dims, DimExact D
     posInBox Ops.rat dims (translatePos Ops.rat dims c r) = true ∧
     posIndex Ops.rat dims (translatePos Ops.rat dims c r) = ((addIdx (dims.map (·.n)) c r : ℕ) : ℤ) := by
   induction dims generalizing c r with
-  | nil => simp [translatePos, posInBox, posIndex, addIdx]
+  | nil => simp [posInBox, posIndex, addIdx]
   | cons D Ds ih =>
     obtain ⟨p, hp, h0, hL, hi⟩ := translate_dim D (hex D List.mem_cons_self) c r
     obtain ⟨ih1, ih2⟩ := ih (fun E hE => hex E (List.mem_cons_of_mem _ hE)) (c / D.n) (r / D.n)
@@ -146,5 +146,46 @@ theorem translate_rat (g : Grid ℚ) (hex : ∀ D ∈ g.dims, DimExact D) (c r :
   simp only [Grid.ns] at hlt ⊢
   have : (0:ℤ) ≤ ((addIdx (g.dims.map (·.n)) c r : ℕ) : ℤ) := by positivity
   simp [this, hlt]
+
+/-! ### different offsets lead to different cells -/
+
+theorem add_mod_cancel (n a x y : Nat) (hx : x < n) (hy : y < n) (ha : a < n) (h : (a + x) % n = (a + y) % n) :
+    x = y := by
+  have e : ∀ z, z < n → (a + z) % n = if a + z < n then a + z else a + z - n := by
+    intro z hz
+    split
+    · exact Nat.mod_eq_of_lt ‹_›
+    · rw [Nat.mod_eq_sub_mod (by omega), Nat.mod_eq_of_lt (by omega)]
+  rw [e x hx, e y hy] at h
+  split at h <;> split at h <;> omega
+
+theorem addIdx_injective (ns : List Nat) (hpos : ∀ n ∈ ns, 0 < n) (c r₁ r₂ : Nat)
+    (h₁ : r₁ < numCells ns) (h₂ : r₂ < numCells ns) (h : addIdx ns c r₁ = addIdx ns c r₂) : r₁ = r₂ := by
+  induction ns generalizing c r₁ r₂ with
+  | nil => simp only [numCells] at h₁ h₂; omega
+  | cons n ns ih =>
+    have hn := hpos n List.mem_cons_self
+    simp only [addIdx] at h
+    simp only [numCells] at h₁ h₂
+    have ha : (c % n + r₁ % n) % n < n := Nat.mod_lt _ hn
+    have hb : (c % n + r₂ % n) % n < n := Nat.mod_lt _ hn
+    have hmod : (c % n + r₁ % n) % n = (c % n + r₂ % n) % n := by
+      have := congrArg (· % n) h
+      simpa [Nat.add_mul_mod_self_left, Nat.mod_eq_of_lt ha, Nat.mod_eq_of_lt hb] using this
+    have hdiv : addIdx ns (c / n) (r₁ / n) = addIdx ns (c / n) (r₂ / n) := by
+      have := congrArg (· / n) h
+      simpa [Nat.add_mul_div_left _ _ hn, Nat.div_eq_of_lt ha, Nat.div_eq_of_lt hb] using this
+    have hq : r₁ / n = r₂ / n := by
+      apply ih (fun k hk => hpos k (List.mem_cons_of_mem _ hk)) (c / n) _ _ _ _ hdiv
+      · exact Nat.div_lt_of_lt_mul h₁
+      · exact Nat.div_lt_of_lt_mul h₂
+    have hr : r₁ % n = r₂ % n := by
+      have h1 : r₁ % n < n := Nat.mod_lt _ hn
+      have h2 : r₂ % n < n := Nat.mod_lt _ hn
+      have hc : c % n < n := Nat.mod_lt _ hn
+      exact add_mod_cancel n (c % n) _ _ h1 h2 hc hmod
+    calc r₁ = n * (r₁ / n) + r₁ % n := (Nat.div_add_mod r₁ n).symm
+      _ = n * (r₂ / n) + r₂ % n := by rw [hq, hr]
+      _ = r₂ := Nat.div_add_mod r₂ n
 
 end JF.Walker
